@@ -55,7 +55,13 @@ using namespace cds_utils;
 #include "utils/LogSequence.h"
 #include "utils/VByte.h"
 
+#ifdef LIBCSD_VERIF
+#undef MEMALLOC
+#endif
 #define MEMALLOC 32768
+#ifdef LIBCSD_VERIF
+#include "utils/VerifHooks.h"
+#endif
 
 class StringDictionaryPFC : public StringDictionary {
 public:
